@@ -363,7 +363,7 @@ pub fn run(ctx: &mut RunCtx) {
     ctx.assume("orderability: MAP < NODE < RELATIONSHIP < LIST < PATH < STRING < BOOLEAN < NUMBER < (datetime < bytes, engine-specific scalar kinds) < null in ascending order; numbers by exact value with NaN above every number; strings by code point; lists element-wise then by length; nodes by id; two maps are not ordered by the reference (one tie group); DESC is the exact reverse (nulls first)");
     ctx.assume("tie order is unspecified: SKIP/LIMIT results are compared up to permutation inside tie groups");
     let excl_temporal = ctx.has_open("unsorted:string-string:temporal-looking");
-    let n = ctx.tier.pick(60_000, 12_000_000);
+    let n = ctx.tier.pick(360_000, 12_000_000);
     ctx.explore(
         "order-by",
         "0-12 rows of 1-3 keys drawn from a pool of hard values (integers around 2^53 and 2^63 next to floats of the same magnitude, NaN, +-0.0, +-inf, nulls, temporal-looking and plain strings, lists, maps, datetime/bytes parameters, nodes and relationships) closed under type change/+-1/ulp steps; ASC/DESC mix; SKIP/LIMIT in 0..=n+2 incl. 0 and beyond the length; three syntactic forms; literals or parameters. Non-trivial = >=2 distinct non-null first keys of >=2 kinds, or >=2 boundary numbers among the keys",
